@@ -93,14 +93,16 @@ def run_stage(stage, par, fail_at, chooser=None, real=False):
                 proc = multi_tan.MultiTanProcessor.__new__(multi_tan.MultiTanProcessor)
                 proc._collection = c03.StubCollection(imgs)
                 proc._descs = [c03.StubDesc() for _ in imgs]
-                proc._tile_parallel(c03.StubPio(), False, par)
+                proc._tiling = c03.StubTiling()
+                proc.tile(c03.StubPio(), parallel=par, cli_progress=False)
             else:
                 from toasty import multi_wcs
                 proc = multi_wcs.MultiWcsProcessor.__new__(multi_wcs.MultiWcsProcessor)
                 proc._collection = c03.StubCollection(imgs)
                 proc._descs = [c03.StubDesc() for _ in imgs]
                 proc._combined_wcs = None
-                proc._tile_parallel(c03.StubPio(), lambda *a, **k: None, False, par)
+                proc._tiling = c03.StubTiling()
+                proc.tile(c03.StubPio(), lambda *a, **k: None, parallel=par, cli_progress=False)
     if real:
         try:
             fn()
@@ -140,20 +142,54 @@ def run_load_failure(stage, par, nimg, fail_k, exc, chooser=None):
             proc = multi_tan.MultiTanProcessor.__new__(multi_tan.MultiTanProcessor)
             proc._collection = coll
             proc._descs = [c03.StubDesc() for _ in imgs]
-            proc._tile_parallel(c03.StubPio(), False, par)
+            proc._tiling = c03.StubTiling()
+            proc.tile(c03.StubPio(), parallel=par, cli_progress=False)
         else:
             from toasty import multi_wcs
             proc = multi_wcs.MultiWcsProcessor.__new__(multi_wcs.MultiWcsProcessor)
             proc._collection = coll
             proc._descs = [c03.StubDesc() for _ in imgs]
             proc._combined_wcs = None
-            proc._tile_parallel(c03.StubPio(), lambda *a, **k: None, False, par)
+            proc._tiling = c03.StubTiling()
+            proc.tile(c03.StubPio(), lambda *a, **k: None, parallel=par, cli_progress=False)
     sim = simmp.simulate(fn, chooser, max_steps=20000, hang_window=300)
     if sim.outcome == "exception":
         return "raised", f"{type(sim.main.exc).__name__}", sim
     if sim.outcome == "ok":
         return "ok", "returned normally", sim
     return "hang", sim.outcome, sim
+
+
+def _cli_target(cmd, base, par):
+    """a `toasty` sub-command over a pyramid with one unreadable tile, as the console script runs it;
+    returns ("failed", how) when it exits non-zero / raises, ("ok", "") when it reports success"""
+    import toasty.par_util
+    toasty.par_util.SHOW_INFORMATIONAL_MESSAGES = False
+    from toasty import cli
+    sys.stdout = sys.stderr = open(os.devnull, "w")
+    args = {"cascade": ["cascade", "--start", "1", "--parallelism", str(par), base],
+            "transform": ["transform", "u8-to-rgb", "--start", "1", "--parallelism", str(par), base]}[cmd]
+    try:
+        cli.entrypoint(args)
+    except SystemExit as e:
+        return ("ok", "exit status 0") if e.code in (0, None) else ("failed", f"exit status {e.code}")
+    except BaseException as e:  # noqa
+        return "failed", type(e).__name__
+    return "ok", "returned"
+
+
+def make_broken_pyramid(base, cmd):
+    """depth-1 pyramid (RGB png tiles for `cascade`, U8 npy tiles for `transform u8-to-rgb`) whose tile (1,1,0) is not readable"""
+    import numpy as np
+    from toasty.pyramid import PyramidIO, Pos
+    from toasty.image import Image
+    fmt = "png" if cmd == "cascade" else "npy"
+    pio = PyramidIO(base, default_format=fmt)
+    for (x, y) in ((0, 0), (1, 0), (0, 1), (1, 1)):
+        arr = np.full((256, 256, 3) if fmt == "png" else (256, 256), 40 + x + 2 * y, dtype=np.uint8)
+        pio.write_image(Pos(1, x, y), Image.from_array(arr), format=fmt)
+    with open(pio.tile_path(Pos(1, 1, 0), format=fmt, makedirs=False), "wb") as f:
+        f.write(b"this is not an image file")
 
 
 def _real_target(stage, par, fail_at):
@@ -218,6 +254,23 @@ def main():
                     h.violation(f"{stage}:leak", f"{stage}: raised while workers {sim.alive_at_return} were still running", input={"stage": stage})
                 if si == 0:
                     h.sample({"stage": stage, "workers": par, "fail_at": str(fa), "outcome": f"{kind}: {detail}"})
+            # the last report of a walk is the apex: its failure (or a failure reported just before it) must not slip through a
+            # window between "tile reported" and "error recorded" — priority schedules park the worker inside that window
+            if stage == "walk":
+                for xi in range(24 if h.deep else 10):
+                    par = rng.choice([2, 3])
+                    fa = [(0, 0, 0), "all", (1, 1, 1)][xi % 3]
+                    _EXC["cls"] = EXC_CLASSES[xi % len(EXC_CLASSES)]
+                    chooser = (simmp.PCTChooser(rng.randrange(2 ** 31), depth=rng.choice([2, 3, 4, 5]), timeout_prob=rng.choice([0.3, 0.7])) if xi % 2
+                               else simmp.DelayAfterChooser(rng.randrange(2 ** 31), kinds=("put",), prob=0.7))
+                    kind, detail, sim = run_stage(stage, par, fa, chooser=chooser)
+                    h.case((stage, "apex-window", par, str(fa), tuple(sim.choices)))
+                    h.count("stage", "walk:late-failure")
+                    h.count("outcome", kind)
+                    if kind != "raised":
+                        h.violation(f"{stage}:{'hang' if kind == 'hang' else 'swallowed'}",
+                                    f"walk with {par} workers, item {fa} raising {_EXC['cls'].__name__}, under a priority / delay-after-report schedule: {'did not terminate (' + detail + ')' if kind == 'hang' else 'returned normally although an item failed'}",
+                                    input={"stage": stage, "workers": par, "fail_at": str(fa), "exception": _EXC["cls"].__name__, "choices": sim.choices[:400], "trace": sim.trace[:100]})
             # an input image that cannot be LOADED (the error is raised in the parent, by the collection's generator)
             if stage in ("multi_tan", "multi_wcs"):
                 for li in range(12 if h.deep else 5):
@@ -249,6 +302,25 @@ def main():
                     h.count("real", f"{stage}-all:{kind}")
                     if kind != "raised":
                         h.violation(f"real:{stage}:{'hang' if kind == 'hang' else 'swallowed'}", f"{stage} with {par} real worker processes and every callback failing: {kind} ({detail})", input=[stage, par, "all"])
+        # the command line: a sub-command that runs a parallel stage over a pyramid with an unreadable tile must not report success
+        import tempfile
+        import shutil
+        from .common import run_isolated
+        croot = tempfile.mkdtemp(prefix="vfc19_")
+        try:
+            for cmd in ("cascade", "transform"):
+                for par in ((1, 2, 3) if h.deep else (1, 2)):
+                    base = os.path.join(croot, f"{cmd}{par}")
+                    make_broken_pyramid(base, cmd)
+                    st, val = run_isolated(_cli_target, (cmd, base, par), 60)
+                    h.case(("cli", cmd, par))
+                    h.count("cli", f"{cmd}:j{par}")
+                    if st == "hang":
+                        h.violation(f"cli:{cmd}:hang", f"`toasty {cmd} --parallelism {par}` over a pyramid with an unreadable tile did not terminate", input=[cmd, par])
+                    elif st == "ok" and isinstance(val, tuple) and val[0] == "ok":
+                        h.violation(f"cli:{cmd}:swallowed", f"`toasty {cmd} --parallelism {par}` over a pyramid with an unreadable tile reported success ({val[1]})", input={"command": cmd, "parallelism": par, "unreadable_tile": [1, 1, 0]})
+        finally:
+            shutil.rmtree(croot, ignore_errors=True)
     finally:
         sys.stderr = saved_err
     return h.finish()
